@@ -74,3 +74,32 @@ func TestScratchSites(t *testing.T) {
 		t.Logf("SITE %s\n      %s", k, sites[k])
 	}
 }
+
+// TestScratchString: which accepted policy makes String() overflow the stack (dev only; kills the process).
+func TestScratchString(t *testing.T) {
+	if os.Getenv("C10B_SCRATCH") != "2" {
+		t.Skip("dev only")
+	}
+	e := entryByName("tkn20.Policy.ExtractFromCiphertext")
+	for vi := 0; vi < e.NValid; vi++ {
+		for i, in := range tknSweepInputs(e.Valid(vi)) {
+			var p tknPolicy
+			ok := false
+			vlib.Catch(func() { ok = p.ExtractFromCiphertext(in) == nil })
+			if ok {
+				fmt.Fprintf(os.Stderr, "STRING valid=%d input#%d diff=%s\n", vi, i, diffBytes(e.Valid(vi), in))
+				vlib.Catch(func() { _ = p.String() })
+			}
+		}
+	}
+}
+
+func diffBytes(a, b []byte) string {
+	var out []string
+	for i := range a {
+		if i < len(b) && a[i] != b[i] {
+			out = append(out, fmt.Sprintf("@%d:%02x->%02x", i, a[i], b[i]))
+		}
+	}
+	return strings.Join(out, ",")
+}
